@@ -16,6 +16,14 @@ func GenIterScript(r *Rng, hist map[string]int) []string {
 	add := func(format string, a ...interface{}) { out = append(out, "E "+fmt.Sprintf(format, a...)) }
 	o := EngineGenOpts{FixedIO: -1}
 	c := genCfg(r, o, hist)
+	nk := r.Pick(0, 1, 2, 5, 12, 40, 40, 160, 450)
+	maxLen := 4
+	if nk > 100 {
+		// many keys per shard (tree nodes split, iterators cross node and buffer boundaries)
+		maxLen = 6
+		c.shards = r.Pick(1, 1, 2, 3)
+		hist["iter_many_keys"]++
+	}
 	add("dir db")
 	add("open %s", c)
 	live := map[string]bool{}
@@ -24,14 +32,13 @@ func GenIterScript(r *Rng, hist map[string]int) []string {
 	alpha := [][]byte{[]byte("abc"), []byte("abc"), {0x00, 0x7f, 0xff}, {0xfe, 0xff, 0x00}, {'a', 0xff, 'b'}}[r.Intn(5)]
 	hist[fmt.Sprintf("iter_alphabet_%x", alpha)]++
 	randKey := func() []byte {
-		n := 1 + r.Intn(4)
+		n := 1 + r.Intn(maxLen)
 		b := make([]byte, n)
 		for i := range b {
 			b[i] = alpha[r.Intn(3)]
 		}
 		return b
 	}
-	nk := r.Pick(0, 1, 2, 5, 12, 40)
 	for i := 0; i < nk; i++ {
 		k := randKey()
 		add("put %s @%d:%d", hex.EncodeToString(k), 1+r.Intn(12), r.Intn(9999))
@@ -72,6 +79,9 @@ func GenIterScript(r *Rng, hist map[string]int) []string {
 		hist[fmt.Sprintf("iter_snapshot_%s", sizeClass(len(snap)))]++
 		cur := 0
 		nops := 3 + r.Intn(28)
+		if nk > 100 {
+			nops = 60 + r.Intn(200)
+		}
 		for i := 0; i < nops; i++ {
 			switch x := r.Intn(20); {
 			case x < 9:
